@@ -65,7 +65,7 @@ NOT_APPLICABLE = {
 }
 
 # properties that will be claimed but whose check is not built yet
-PENDING = {k: "claimed in DESIGN.md; its check is not built yet in this commit" for k in ("C10 C11 C12 C13").split()}
+PENDING = {k: "claimed in DESIGN.md; its check is not built yet in this commit" for k in ("C10 C11").split()}
 
 PROPS = {}
 
@@ -263,3 +263,37 @@ _p('C16', 'exploration',
    technique='deterministic simulation: seeded register/unregister histories vs ComponentsModel (listings, queries via rebuilt registries, events, return values)',
    design_ref='DESIGN.md 3/C16', expected_probes=['unhashable-utility', 'utility-replaced', 'same-or-equal-utility-under-several-names',
                                                   'unregistered-one-of-several-names', 're-initialised', 'components-bases-changed'])
+
+C_H2 = Config('c', hashseed=12345)
+PY_H1 = Config('py', hashseed=1)
+
+_p('C12', 'exploration',
+   [Part('persist', {'what': 'order'}, configs=[(C, 4), (PY, 3), (C_H1, 1), (PY_H7, 1)], quick=16000, thorough=600000, name='persist/order-laws'),
+    Part('persist', {'what': 'order'}, kind='diff', diff=[C, C_H1, C_H2, PY, PY_H7], quick=2500, thorough=100000, name='persist/order-across-processes')],
+   rule='one case = one seeded pool of 4-9 interfaces and class specifications whose (name, module) pairs come from an adversarial vocabulary '
+        '(empty, equal, prefix-related, non-ASCII, equal name / other module and vice versa), plus None and foreign objects; all ordered pairs x '
+        'six operators are compared with the key model, hashes of equal interfaces, sorted() of several permutations; the second part executes '
+        'the same seeds in worker processes with PYTHONHASHSEED 0 / 1 / 12345 under both implementations and diffs the logs (sorted order, '
+        'comparison matrix incl. foreign operands); distinct_nontrivial = distinct (kinds, names equal?, modules equal?, operator, result) states',
+   assumptions=['for the algebraic laws the simulator is only the generator (DESIGN.md 3/C12 says so); the simulator-owned dimension is the '
+                'process configuration (hash seed, implementation)', REAL_STUB],
+   level_text='key-model oracle over generated operand pools plus replay of the same seeds across hash seeds and implementations in fresh worker '
+              'processes; sampled evidence',
+   technique='deterministic simulation: seeded operand pools vs (name, module) key model; same seeds replayed across PYTHONHASHSEED x implementation and log-diffed',
+   design_ref='DESIGN.md 3/C12')
+
+_p('C13', 'exploration',
+   [Part('persist', {'what': 'pickle'}, configs=[(C, 4), (PY, 3), (C_H1, 1), (PY_H7, 1)], quick=14000, thorough=500000, name='persist/pickle'),
+    Part('persist', {'what': 'pickle', 'restart': True}, configs=[(C, 1), (PY, 1)], quick=700, thorough=20000, name='persist/restart', batch=10, timeout=90.0)],
+   rule='one case = one seeded declaration history (instance and class declarations of every shape, incl. the only / first / provider forms at '
+        'import time of a generated importable module) followed by dump of every interface, class specification, class and instance '
+        'provides-declaration, declared object and _empty with a PRNG-chosen protocol, then load in the same process (optionally after a gc fault) '
+        'or in a fresh interpreter of the other implementation / hash seed that regenerates the module (restart: only the pickle survives); '
+        'identity for interfaces / class specifications, same provided interfaces for provides-declarations, no definition bytes in the pickle; '
+        'distinct_nontrivial = distinct (kind, protocol, declaration shape, provided set) states',
+   assumptions=['restart histories contain no class-level declaration changes after import (they would not exist in the new process)',
+                'a declaration that was elided as redundant and whose class was narrowed afterwards may come back on unpickling (the pickle stores what was declared)',
+                REAL_STUB],
+   level_text='seeded declaration histories with dump / gc / load and dump / restart / load through real pickles and a real second interpreter; sampled evidence',
+   technique='deterministic simulation: seeded declaration histories + dump/gc/load and dump/restart(fresh interpreter, other impl/hash seed)/load',
+   design_ref='DESIGN.md 3/C13', expected_probes=['provides-roundtrip-identical'])
